@@ -173,7 +173,7 @@ def spell_rule(rng, rr, doc_spec="__none__"):
     if rr.get("cast"):
         spec["cast"] = {"str": rr["cast"]}
     elif rng.random() < 0.1:
-        spec["cast"] = rng.choice([None, {}])
+        spec["cast"] = None
     if doc_spec != "__none__":
         spec["doc"] = doc_spec
     items = list(spec.items())
@@ -244,20 +244,23 @@ def project(e, op, obj):
         e["pdocs"] = [enc_val(r.doc) for r in obj.rules]
 
 
-def parse_event(i, op, spec, dsl=None, delim="/"):
-    """spec: a fresh Python structure (it is parsed twice and inspected afterwards)"""
+def parse_event(i, op, spec, dsl=None, delim="/", parser=None, spec_for_tlc=None):
+    """spec: a fresh Python structure (it is parsed twice and inspected afterwards).
+    parser: optional callable replacing do_parse (e.g. the YAML routes); spec_for_tlc: the structure the
+    specification should parse when `spec` is not itself what the parser receives."""
     import valida.conditions as vc
     import valida.datapath as dp
     import valida
 
     e = blank(i, op)
-    e["spec"] = enc_val(spec)
+    e["spec"] = enc_val(spec if spec_for_tlc is None else spec_for_tlc)
     e["delim"] = ord(delim)
+    _do = do_parse if parser is None else (lambda _op, _spec, _delim: parser())
     kinds = {"parse_cond": vc.ConditionLike, "parse_part": dp.ContainerValue,
              "parse_parts": dp.DataPath, "parse_path": dp.DataPath, "from_str": dp.DataPath,
              "parse_rule": valida.Rule, "parse_schema": valida.Schema}
     try:
-        first = do_parse(op, spec, delim)
+        first = _do(op, spec, delim)
         e["outcome"] = "ok"
     except RecursionError as ex:
         first, e["outcome"], e["exc_allowed"], e["exc"] = None, "raised:RecursionError", False, "RecursionError"
@@ -267,28 +270,28 @@ def parse_event(i, op, spec, dsl=None, delim="/"):
         e["exc"] = type(ex).__name__
         e["exc_allowed"] = exc_allowed(ex, op)
     if e["outcome"] == "ok" and not isinstance(first, kinds[op]):
-        e["outcome"] = "accepted:non-object"          # e.g. a tuple returned for {"value.flatten": None}
-        first = None
+        e["exc"] = "accepted:" + type(first).__name__   # e.g. a tuple returned for {"value.flatten": None}
+        first = None                                    # accepted, but nothing that can be projected
     try:
-        e["spec_after"] = enc_val(spec)
+        e["spec_after"] = enc_val(spec) if spec_for_tlc is None else e["spec"]
     except Unencodable:
         e["spec_after"] = V("unencodable")
     if first is not None:
         project(e, op, first)
+        if dsl is not None:
+            e["has_dsl"] = True
+            e["eq_dsl"] = bool(first == dsl)
+            e["eq_dsl_rev"] = bool(dsl == first)
         try:
-            second = do_parse(op, spec, delim)
+            second = _do(op, spec, delim)
             e["outcome2"] = "ok"
             e["eq12"] = bool(first == second) and bool(second == first)
         except Exception as ex:  # noqa
             e["outcome2"] = "raised:" + type(ex).__name__
         try:
-            e["spec_after2"] = enc_val(spec)
+            e["spec_after2"] = enc_val(spec) if spec_for_tlc is None else e["spec"]
         except Unencodable:
             e["spec_after2"] = V("unencodable")
-        if dsl is not None:
-            e["has_dsl"] = True
-            e["eq_dsl"] = bool(first == dsl)
-            e["eq_dsl_rev"] = bool(dsl == first)
     return e
 
 
